@@ -23,14 +23,28 @@ Part "tbh": rewrite histories of ONE path: module A is written to path P, execut
     that moment. Keys traceback/history/...: a failure of a later step that does not
     occur for the same module at a path never used before.
 
+Part "synh": Syntax histories inside ONE process: events P = Syntax.from_path(file with
+    extension e) and S = Syntax(code, lexer alias e), e in {json, html, py, xml}, code
+    with and without leading blank lines; all ordered pairs of events (thorough: also
+    with a line_range, and triples); each history runs in a forked child of a worker
+    that has imported rich and rendered nothing (FRESH_WORKERS), every rendering is
+    judged by the numbered oracle. Keys syntax/history/...: a failure of a later event
+    that does not occur when the event is the first one of a fresh process.
+The source alphabet has a second stratum: sequences over {blank, plain, a line with a
+form feed in a string literal, a line with U+2028 and U+0085 in a comment} that contain
+a special line (ONE line for Python and split("\n"), several for str.splitlines); the
+generated traceback modules have variants with such a line before the raising line.
+
 Finding keys are chosen by diagnosis of the failing rendering (is it the rendering of
 the source without its leading blank lines? does the stray line vanish without indent
 guides?), never by the input alone, so one defect keeps one key.
 
-Measured on the unchanged tree: quick 382,020 evaluations, 393 distinct outcomes,
-270 CPU-s (~20 s wall on 16 idle cores; 188 s were measured at load average 98);
-thorough 4,489,836 evaluations, 1,085 distinct outcomes, 3,320 CPU-s (~4 min on 16
-idle cores; 48 min were measured at load average 130).
+Measured (tree f85c7dd, all C17 fixes but the indent-guide one in): quick 537,072
+evaluations (529,680 Syntax renders, 5,600 tracebacks, 640 rewrite-history and 1,152
+Syntax-history renders), 476 distinct outcomes, ~390 CPU-s at load average >100
+(~300 CPU-s idle, ~25 s wall on 16 idle cores); thorough 5.5 M Syntax renders +
+122,304 tracebacks + 3,600 + 6,144 history renders, ~5,000 CPU-s (~6 min on 16 idle
+cores; the earlier 4.49 M-evaluation version measured 3,320 CPU-s).
 """
 import io
 import itertools
@@ -144,7 +158,7 @@ def _unit_cases(code, nseq, tier):
                     yield dev, r
     else:                                            # P4
         for dev in _opt_vectors(1):
-            for r in TWO_RANGES:
+            for r in TWO_RANGES + [(1, 2)]:          # (1,2): a selection that can consist of blank lines only
                 yield dev, r
 
 
@@ -954,13 +968,17 @@ def describe(tier, seed, res):
                 "monokai, width 60); sources of <%d lines additionally every range x each of the %d single option "
                 "deviations (line_numbers off, start_line 5/99, highlight_lines, word_wrap, code_width 10/6, indent_guides, "
                 "theme ansi_dark, width 20, tab_size 2) and every %s of deviations x {no range, (2,3)}; sources of %d lines "
-                "every single deviation x {no range, (2,3)}. Traceback: %d generated modules = 3 shapes x leading blank "
+                "every single deviation x {no range, (2,3), (1,2)}. Traceback: %d generated modules = 3 shapes x leading blank "
                 "lines x statements before the raise x lines after the call x trailing blank lines 0..3 x final newline x "
                 "extra_lines%s, executed and rendered at width 100, each under a path of its own; plus %d rewrite histories "
                 "of ONE path: all ordered pairs over a menu of %d module shapes (leading blank lines, length and raise line "
                 "vary) x extra_lines%s and all ordered triples over every second shape x extra_lines {0,3}: module 1 is "
                 "written, run and rendered, the same path is rewritten with module 2 (3), run and rendered again, and every "
-                "rendering is judged against the file as it is on disk then. A case is non-trivial when at least one source line "
+                "rendering is judged against the file as it is on disk then. The sources have a second stratum: sequences over "
+                "{blank, plain, form-feed-in-string line, U+2028/U+0085-in-comment line} containing a special line; the "
+                "traceback modules have 4 variants with such a line before the raise. Syntax histories: %d histories "
+                "of events {Syntax.from_path(file .e), Syntax(code, alias e)} x e in %s x %d codes%s, all ordered pairs%s, each "
+                "in a forked child of a fresh worker that has rendered nothing. A case is non-trivial when at least one source line "
                 "is shown (Syntax); every traceback case is (a history step when the file content changed). distinct = distinct outcome signatures. This is not the full "
                 "product of the options (deviation bound %d)." % (
                     nsrc, top, len(LINES), LEXERS, top, len(_opt_vectors(1)),
@@ -969,6 +987,9 @@ def describe(tier, seed, res):
                     "" if tier == "quick" else " x indent_guides x word_wrap",
                     sum(1 for _ in _hist_cases(tier)), 8 if tier == "quick" else 12,
                     " {0,3}" if tier == "quick" else " {0,1,3,5} x indent_guides",
+                    sum(1 for _ in _synh_cases(tier)), H_ALIASES, len(H_CODES),
+                    "" if tier == "quick" else " x {no range, (2,3)}",
+                    "" if tier == "quick" else " and triples over the first code",
                     2 if tier == "quick" else 3),
         "assumptions": [
             "source lines = code.expandtabs(tab_size).split('\\n'); blank lines after the last non-blank line may be shown or not",
@@ -977,10 +998,13 @@ def describe(tier, seed, res):
             "the width left of the console",
             "without line numbers a line_range only has to leave a run of source lines in order (the statement speaks of "
             "ranges with numbers shown)",
+            "backspace, VT, form feed and CR are dropped by every rich Text by design (rich.control) and are ignored "
+            "in the comparison; U+2028, U+0085 and a form feed do not end a source line (only \\n does)",
             "Pygments is trusted as the tokenizer; frame line numbers are CPython's, cross-checked against the generator",
         ],
         "coverage": {"sources": nsrc, "source_lexer_units": res.counters.get("syn_units", 0),
-                     "traceback_rewrite_histories": res.counters.get("tb_histories", 0)},
+                     "traceback_rewrite_histories": res.counters.get("tb_histories", 0),
+                     "syntax_histories": res.counters.get("syn_histories", 0)},
     }
 
 
